@@ -1,4 +1,21 @@
-"""Constants of the tracked-allocation layout (C05): guard size of the build without corruption check, pointer alignment unit."""
+"""Constants of the tracked-allocation layout (C05): guard size of the build without corruption check, pointer alignment unit,
+sizes of the two bookkeeping nodes of the memory-accounting wrappers (LP64: every member is a size_t or a pointer)."""
+import re
+
+
+def lp64_struct_size(h, name):
+    """sizeof a struct of TestMemoryAllocator.cpp all of whose members are size_t or pointers (8 bytes each, no padding)."""
+    path = "src/CppUTest/TestMemoryAllocator.cpp"
+    m = re.search(r"struct\s+%s\s*\{(.*?)\};" % name, h.src(path), re.S)
+    if not m:
+        h.errors.append("%s: struct %s not found" % (path, name))
+        return None
+    fields = [f.strip() for f in m.group(1).split(";") if f.strip()]
+    for f in fields:
+        if not re.fullmatch(r"(size_t\s+|\w+\s*\*\s*)\w+", f):
+            h.errors.append("%s: struct %s: member '%s' is neither a size_t nor a pointer" % (path, name, f))
+            return None
+    return 8 * len(fields)
 
 
 def generate(h):
@@ -9,4 +26,9 @@ def generate(h):
     # of every underlying request for every size 0..4096 and around every power of two, so any change of the rounding that
     # changes a value is seen there, and a rewrite that computes the same values stays quiet.
     t += "(* LP64: sizeof(void* ) *)\nDefinition c05_ptr_size : N := 8%N.\n"
+    for coqname, struct, what in (("c05_accountant_node_size", "MemoryAccountantAllocationNode", "the accountant's per-size statistics node"),
+                                  ("c05_tracking_node_size", "AccountingTestMemoryAllocatorMemoryNode", "the wrapper's per-block tracking node")):
+        v = lp64_struct_size(h, struct)
+        if v is not None:
+            t += "(* src/CppUTest/TestMemoryAllocator.cpp: sizeof(%s), %s (LP64) *)\nDefinition %s : N := %d%%N.\n" % (struct, what, coqname, v)
     return t
